@@ -56,7 +56,7 @@ def app_check(ctx, prop, props_v, theorems, codes, pred, extra_assume, known_cla
     assume = APP_ASSUME + list(extra_assume)
     if props_v:
         proofs(ctx, props_v, theorems)
-    else:
+    elif not hasattr(ctx, "proof_ok"):
         ctx.proof_ok, ctx.proof_info = True, {}
     binp, out = V.go_build(ctx)
     if binp is None:
